@@ -12,7 +12,7 @@ import ast
 import operator
 
 from .errors import AnalysisError, Unsupported
-from .pxv import (ALIASES, NT, Bound, Closure, Event, Exc, Hierarchy, Iter, Obj, Partial, Path, Sym, exc_name_of, _match)
+from .pxv import (ALIASES, NT, Bound, Closure, Event, Exc, Hierarchy, Iter, Obj, Partial, Path, PyModel, Sym, exc_name_of, _match)
 from .te import ClassRef, FuncRef, Member, ModuleRef, Record, TypeRef, Unknown
 
 
@@ -999,6 +999,11 @@ class PX:
                 base.fields[("__epoch__", t.attr)] = self.epoch
             elif isinstance(base, Sym):
                 self.symfields[(base.tag, t.attr)] = v
+            elif isinstance(base, PyModel):
+                try:
+                    setattr(base, t.attr, v)
+                except AttributeError:
+                    raise Exc("AttributeError", (t.attr,), origin=_text(t))
             else:
                 pass
         elif isinstance(t, ast.Subscript):
@@ -1257,6 +1262,11 @@ class PX:
             return Sym(f"{b.name}.{attr}")
         if type(b).__module__ == "re" or isinstance(b, _ExitStack):
             return _PyMethod(b, attr)
+        if isinstance(b, PyModel):
+            if not hasattr(b, attr):
+                raise Exc("AttributeError", (attr,), origin=_text(e) if e is not None else attr)
+            v = getattr(b, attr)
+            return _PyMethod(b, attr) if callable(v) and not isinstance(v, PyModel) else v
         raise Unsupported(f"{fr.mod}:{getattr(e, 'lineno', '?')} getattr {attr} on {b!r}")
 
     def e_Tuple(self, e, fr):
@@ -2373,6 +2383,8 @@ class PX:
                         a = _drain(a)
                 elif isinstance(a, Member) and n in ("int", "bool", "bytes", "abs", "min", "max", "range"):
                     a = a.value
+                elif isinstance(a, PyModel) and n == "int" and hasattr(a, "__int__"):
+                    a = int(a)
                 elif isinstance(a, ClassRef) and a.is_enum and n in ("tuple", "list", "set", "frozenset", "sorted", "enumerate", "reversed", "len"):
                     a = list(a.canonical_members())  # iterating an enum class yields its (canonical) members
                 pyargs.append(a)
